@@ -186,11 +186,11 @@ static std::string class_of(Cfg const& c) {
 static long ipow(long b, long e) { long r = 1; for(long i = 0; i < e; ++i) { r *= b; } return r; }
 // potrf: lower factor L, diagonal in {1,2}, strictly lower entries in {0,1} (real) / {0,1,i} (complex)
 static long chol_total(int n, bool cx) { return ipow(2, n) * ipow(cx ? 3 : 2, n * (n - 1) / 2); }
-static std::vector<long> chol_family(int n, bool cx) {
+static std::vector<long> chol_family(int n, bool cx, long family_size) {
 	std::vector<long> f; long tot = chol_total(n, cx);
 	if(n <= 3) { for(long k = 0; k < tot; ++k) { f.push_back(k); } return f; }
-	long mult = cx ? 181 : 17, add = cx ? 7 : 5;   // coprime to the total: 64 distinct codes spread over all digits
-	for(long k = 0; k < 64; ++k) { f.push_back((k * mult + add) % tot); }
+	long mult = cx ? 181 : 17, add = cx ? 7 : 5;   // coprime to the total: distinct codes spread over all digits (the first 64 are the quick family)
+	for(long k = 0; k < family_size; ++k) { f.push_back((k * mult + add) % tot); }
 	return f;
 }
 template<class T> LM<T> chol_factor(int n, long code) {
@@ -443,7 +443,7 @@ template<class F> void enumerate(Grid& g, F&& emit) {
 	// ---- potrf
 	std::vector<int> tys = {TY_D, TY_Z}; if(th) { tys.push_back(TY_S); tys.push_back(TY_C); }
 	for(int ty : tys) { bool cx = ty == TY_Z || ty == TY_C;
-		for(int n = 0; n <= 4; ++n) { auto fam = chol_family(n, cx);
+		for(int n = 0; n <= (th ? 5 : 4); ++n) { auto fam = chol_family(n, cx, th && n == 4 ? 256 : 64);
 			for(int la = 0; la < NLAY2; ++la) {
 				if(n == 0 && !(la == L_ARRAY || la == L_ROWP || la == L_COLP)) { continue; }   // a store with a zero extent collapses; the empty operand is a 0x0 block of a padded store
 				for(int up = 0; up < 2; ++up) { for(int p = 0; p <= n; ++p) { for(int var = 0; var < (p ? 2 : 1); ++var) { for(long code : fam) {
@@ -453,17 +453,17 @@ template<class F> void enumerate(Grid& g, F&& emit) {
 		}
 	}
 	// ---- geqrf, gesvd: every r x c with r, c in {1,2,3}; all matrices over {-1,0,1} while r*c <= full_upto, a fixed family of 200 beyond
-	int const full_upto = th ? 6 : 4;
-	for(int la = 0; la < NLAY2; ++la) { for(int ls = 0; ls < NLAY1; ++ls) { for(int r = 1; r <= 3; ++r) { for(int cc = 1; cc <= 3; ++cc) { for(long code : ge_family(r, cc, 6)) {
+	int const full_upto = th ? 6 : 4, dmax = th ? 4 : 3;   // thorough adds the sizes with a dimension of 4 (families of 200)
+	for(int la = 0; la < NLAY2; ++la) { for(int ls = 0; ls < NLAY1; ++ls) { for(int r = 1; r <= dmax; ++r) { for(int cc = 1; cc <= dmax; ++cc) { for(long code : ge_family(r, cc, 6)) {
 		Cfg c; c.op = OP_GEQRF; c.la = la; c.ls = ls; c.m = r; c.n = cc; c.code = code; ++g.counts["geqrf"]; emit(c);
 	} } } } }
-	for(int r = 1; r <= 3; ++r) { for(int cc = 1; cc <= 3; ++cc) { for(long code : ge_family(r, cc, 6)) {
+	for(int r = 1; r <= dmax; ++r) { for(int cc = 1; cc <= dmax; ++cc) { for(long code : ge_family(r, cc, 6)) {
 		Cfg c; c.op = OP_GESVD1; c.la = L_ARRAY; c.m = r; c.n = cc; c.code = code; ++g.counts["gesvd1"]; emit(c);
 	} } }
 	for(int la = 0; la < NLAY2; ++la) { for(int lu = 0; lu < NLAY2; ++lu) { for(int lv = 0; lv < NLAY2; ++lv) { for(int ls = 0; ls < NLAY1; ++ls) {
 		bool any_arr = la == L_ARRAY || lu == L_ARRAY || lv == L_ARRAY || ls == V_ARRAY, all_arr = la == L_ARRAY && lu == L_ARRAY && lv == L_ARRAY && ls == V_ARRAY;
 		if(any_arr && !all_arr) { continue; }   // owning arrays: the all-owning call form (as in the repository's use); views: the full cross product
-		for(int r = 1; r <= 3; ++r) { for(int cc = 1; cc <= 3; ++cc) { for(long code : ge_family(r, cc, full_upto)) {
+		for(int r = 1; r <= dmax; ++r) { for(int cc = 1; cc <= dmax; ++cc) { for(long code : ge_family(r, cc, full_upto)) {
 			Cfg c; c.op = OP_GESVD4; c.la = la; c.lu = lu; c.lv = lv; c.ls = ls; c.m = r; c.n = cc; c.code = code; ++g.counts["gesvd4"]; emit(c);
 		} } }
 	} } } }
@@ -606,7 +606,7 @@ int main(int argc, char** argv) {
 	long shard = args.geti("shard", 0), nshards = std::max(1L, args.geti("nshards", 1));
 	std::string only = args.get("replay", "");
 	g_table_path = args.get("table", "");
-	std::size_t const batch_size = static_cast<std::size_t>(args.geti("batch", 48));
+	std::size_t const batch_size = static_cast<std::size_t>(args.geti("batch", 96));
 
 	if(!only.empty()) {   // one configuration, found by enumerating the (thorough) grid; executed in a forked child so that an abort can be classified (--inprocess: no fork)
 		Grid g; g.thorough = true; bool found = false; Cfg hit;
@@ -632,12 +632,12 @@ int main(int argc, char** argv) {
 		if(stopped) { mc::R.exhaustive = false; }
 		mc::R.add("evaluations", g_eval); mc::R.add("distinct_nontrivial", g_nontrivial); mc::R.add("correct", g_correct); mc::R.add("rejected", g_rejected); mc::R.add("violating", g_violating); mc::R.add("children", g_children);
 		long accepted_layouts = 0, rejected_layouts = 0; for(auto const& [k, v] : g_table) { if(v[0] + v[2] > 0) { ++accepted_layouts; } else { ++rejected_layouts; } }
-		mc::R.add("layout_combinations_not_rejected", accepted_layouts); mc::R.add("layout_combinations_always_rejected", rejected_layouts);
 		if(shard == 0) {
+			mc::R.add("layout_combinations_not_rejected", accepted_layouts); mc::R.add("layout_combinations_always_rejected", rejected_layouts);   // as seen by shard 0 (every shard sees every combination)
 			mc::R.note(std::string("tier=") + (thorough ? "thorough" : "quick") + " grid (all shards together): potrf=" + std::to_string(g.counts["potrf"]) + " geqrf=" + std::to_string(g.counts["geqrf"]) + " gesvd(A,U,s,VT)=" + std::to_string(g.counts["gesvd4"]) + " gesvd(A)=" + std::to_string(g.counts["gesvd1"]) + " syev=" + std::to_string(g.counts["syev"]));
-			mc::R.note(std::string("potrf: types {double, complex<double>") + (thorough ? ", float, complex<float>" : "") + "} x n 0..4 x 6 layouts (owning array; row-major contiguous/padded block; column-major contiguous/padded block; column-stride-2) x {upper, lower} x all factors L (diag {1,2}, off-diag {0,1} real / {0,1,i} complex) for n<=3, 64 for n=4 x {positive definite; pivot p=1..n made 0 or -1}");
-			mc::R.note(std::string("geqrf: r,c in 1..3 x 6 layouts of A x 3 layouts of tau (owning, unit-stride block, stride 2) x all matrices over {-1,0,1} for rc<=6, 200 for 3x3; oracle: Householder reconstruction of A^T (or A) and orthogonality of Q, 64*eps*|A|*max(r,c)"));
-			mc::R.note(std::string("gesvd(A,U,s,VT): r,c in 1..3 x (5 view layouts)^3 x 2 layouts of s + the all-owning form x all matrices over {-1,0,1} for rc<=") + (thorough ? "6" : "4") + ", 200 beyond; gesvd(A): owning arrays (views do not compile: api gap) x all matrices rc<=6, 200 for 3x3; oracle: |A-U*diag(s)*VT| <= 64*eps*|A|*max(r,c), U, VT orthogonal, s >= 0 non-increasing");
+			mc::R.note(std::string("potrf: types {double, complex<double>") + (thorough ? ", float, complex<float>" : "") + "} x n 0.." + (thorough ? "5" : "4") + " x 6 layouts (owning array; row-major contiguous/padded block; column-major contiguous/padded block; column-stride-2) x {upper, lower} x all factors L (diag {1,2}, off-diag {0,1} real / {0,1,i} complex) for n<=3, a fixed family of " + std::string(thorough ? "256 for n=4 and 64 for n=5" : "64 for n=4") + " x {positive definite; pivot p=1..n made 0 or -1}");
+			mc::R.note(std::string("geqrf: r,c in 1..") + (thorough ? "4" : "3") + " x 6 layouts of A x 3 layouts of tau (owning, unit-stride block, stride 2) x all matrices over {-1,0,1} for rc<=6, a fixed family of 200 beyond; oracle: Householder reconstruction of A^T (or A) and orthogonality of Q, 64*eps*|A|*max(r,c)");
+			mc::R.note(std::string("gesvd(A,U,s,VT): r,c in 1..") + (thorough ? "4" : "3") + " x (5 view layouts)^3 x 2 layouts of s + the all-owning form x all matrices over {-1,0,1} for rc<=" + (thorough ? "6" : "4") + ", 200 beyond; gesvd(A): owning arrays (views do not compile: api gap) x all matrices rc<=6, 200 beyond; oracle: |A-U*diag(s)*VT| <= 64*eps*|A|*max(r,c), U, VT orthogonal, s >= 0 non-increasing");
 #ifndef LAPACKMC_HAVE_SYEV
 			mc::R.note("syev: not compiled (lapack/syev.hpp and lapack/getrf.hpp do not preprocess on this tree: mismatched include delimiters; core::syev is commented out); grid present behind -DLAPACKMC_HAVE_SYEV");
 #endif
